@@ -54,6 +54,10 @@ class Term:
         if isinstance(other, Term):
             return self._factor_key == other._factor_key
         if isinstance(other, str):
+            if other == repr(self):
+                # (the pattern below cannot split factors that themselves
+                # contain back-quoted names)
+                return True
             return self._factor_key == tuple(
                 sorted([m.group("factor") for m in self.FACTOR_MATCHER.finditer(other)])
             )
